@@ -153,7 +153,10 @@ fn main() {
         let interesting = !o.viols.is_empty()
             || !o.known.is_empty()
             || (o.nontrivial && !o.skipped && shard.samples.len() < max_samples);
-        if interesting && !o.want_desc {
+        if interesting && !o.want_desc && ctx::stop_requested() {
+            // a helper thread is blocked inside the code under test: running the case again could block too
+            o.desc = format!("(case {idx}: not written out, the shard is being stopped after a detected deadlock; replay by seed and index)");
+        } else if interesting && !o.want_desc {
             // re-run deterministically to obtain the written-out case
             let mut o2 = CaseOut {
                 want_desc: true,
